@@ -13,8 +13,11 @@ D2 the kernel is a compensated recurrence (engine E8, first-order error algebra)
    it equal to 0: the rounding error of the accumulation cancels in the conserved quantity.
    Kahan (sigma = -1) and Neumaier (sigma = +1) satisfy it; naive addition, (t-s)+y, y = x + c
    with this c', or a dropped residual do not.
-D3 merge: += Self is the kernel applied to rhs.sum and, if rhs.compensation is used at all, the
-   kernel applied to it as well; self.compensation stays live.
+D3 merge: += Self feeds one register's sum and, if used at all, its compensation through the kernel into the other
+   register, whose compensation stays live; (a) the merged register stands for the sum of what the operands stand
+   for (s + sigma c, an identity over the reals with c live); (b) the base register is, by the path condition, the
+   one with the larger |sum| - the precondition of the kernel's exact error recovery (Dekker), without which each
+   merge loses u*|partial sum| and chains of merges accumulate like naive summation.
 D4 value() = sum + k*compensation, k in {-1, 0, 1}.
 U: the constant in O(u*sum|x|); behaviour on long f32 streams (runtime quantities)."""
 from fractions import Fraction
@@ -69,6 +72,21 @@ def op_nodes(t):
     return out
 
 
+SIGMA = {}
+
+
+def fast2sum_operands(s1, c1):
+    """If the residual c1 recovers the rounding error of the addition s1 = p + q in the Fast2Sum form (s1 - p) - q,
+    return (p, q): the recovery is exact only when |p| >= |q| (Dekker).  None for any other form."""
+    if s1[0] != 'op' or s1[1] != 'add' or len(s1[2]) != 2:
+        return None
+    a, b = s1[2]
+    for p_, q_ in ((a, b), (b, a)):
+        if c1 == ('op', 'sub', (('op', 'sub', (s1, p_)), q_)):
+            return p_, q_
+    return None
+
+
 def kernel_rule(nf, s1, c1, s=S, c=C, x=X):
     """-> (ok, detail) for one step (s, c, x) -> (s1, c1)."""
     if s1[0] != 'op' or s1[1] not in ('add', 'sub'):
@@ -87,6 +105,7 @@ def kernel_rule(nf, s1, c1, s=S, c=C, x=X):
         base = Affine(T.op('add', T.op('add' if sigma > 0 else 'sub', s, c), x))
         q = q.combine(base, -1)
         if nf.is_zero(nf.of_term(q.real)) and q.eps.get(star, 0) == 0:
+            SIGMA['kernel'] = sigma
             return True, 'sigma = %+d: conserved quantity s %s c; residual first-order terms: %d' % (sigma, '+' if sigma > 0 else '-', len(q.eps))
     q = fs.combine(fc, -1).combine(Affine(T.op('add', T.op('sub', s, c), x)), -1)
     return False, 'the rounding error of the accumulation does not cancel: for sigma=-1 the real part is %s and the coefficient of e* is %s' % (
@@ -162,13 +181,64 @@ def run_cfg(chk, facts, cfg):
             ps = summ(add_s, ['self', 'rhs'], [by_ref(sm.kahan_value(S, [C])), sm.kahan_value(BS, [BC])])
             chk.saw(facts, add_s, paths=len(ps))
             st0 = [sm.kahan_value(S, [C])]
-            cands = {'K(K(st, rhs.sum), rhs.comp)': K(K(st0, BS), BC), 'K(K(st, rhs.sum), -rhs.comp)': K(K(st0, BS), T.op('neg', BC)), 'K(st, rhs.sum)': K(st0, BS)}
-            posts = [q.effects['self'] for q in ps if q.is_ret()]
+            st1 = [sm.kahan_value(BS, [BC])]
+            # either register may be the base the other one is fed into (sum first, then its compensation, if used)
+            cands = {}
+            for bname, base, oname, osum, ocomp in (('self', st0, 'rhs', BS, BC), ('rhs', st1, 'self', S, C)):
+                cands[(bname, 'K(K(%s, %s.sum), %s.comp)' % (bname, oname, oname))] = K(K(base, osum), ocomp)
+                cands[(bname, 'K(K(%s, %s.sum), -%s.comp)' % (bname, oname, oname))] = K(K(base, osum), T.op('neg', ocomp))
+                cands[(bname, 'K(%s, %s.sum)' % (bname, oname))] = K(base, osum)
+            rets = [q for q in ps if q.is_ret()]
+            posts = [q.effects['self'] for q in rets]
             post = posts[0] if posts else None
-            hit = [k for k, v in cands.items() if posts and len(posts) == len(ps) and all(pp in v for pp in posts)]
-            chk.ob('%s:merge%s' % (PID, sfx), 'E3 composition', 'register += register feeds rhs.sum (and rhs.compensation, if used) through the same kernel, keeping self.compensation live',
-                   bool(hit), ('matches ' + hit[0]) if hit else 'merge is %s' % (T.show(post)[:200] if post else 'not straight-line'), where, sample={'merge': hit[0] if hit else None})
-            cnt['kernel'] += 2 if hit and 'comp)' in hit[0] else (1 if hit else 0)
+            per_path = []
+            for q in rets:
+                per_path.append([k for k, v in cands.items() if q.effects['self'] in v])
+            hit = bool(posts) and len(posts) == len(ps) and all(per_path)
+            shown = sorted(set(h[0][1] for h in per_path if h))
+            chk.ob('%s:merge%s' % (PID, sfx), 'E3 composition', 'register += register feeds the other register\'s sum (and its compensation, if used) through the same kernel, keeping the base register\'s compensation live',
+                   hit, ('matches ' + ', '.join(shown)) if hit else 'merge is %s' % (T.show(post)[:200] if post else 'not straight-line'), where, sample={'merge': shown})
+            cnt['kernel'] += 2 if hit and all('comp)' in h[0][1] for h in per_path) else (1 if hit else 0)
+            sigma = SIGMA.get('kernel')
+            if hit and sigma is not None:
+                # (a) a register stands for s + sigma*c (the quantity the kernel conserves): the merged register must stand
+                #     for the sum of the two, as an identity over the reals in s, c, bs, bc (c is NOT assumed to be 0 here:
+                #     it is the live residue of the operand)
+                bad = []
+                sg = lambda a, b: T.op('add' if sigma > 0 else 'sub', a, b)
+                want = T.op('add', sg(S, C), sg(BS, BC))
+                for q in rets:
+                    s2, c2 = fields(q.effects['self'])
+                    if not nf.term_equal(sg(s2, c2[0]), want):
+                        rest = 'a non-zero rest'
+                        for nm, t_ in (('rhs.compensation', BC), ('self.compensation', C)):
+                            for k_ in (2, -2, 1, -1):
+                                if nf.term_equal(sg(s2, c2[0]), T.op('add', want, T.op('mul', T.mk_flt(Fraction(k_)), t_))):
+                                    rest = '%+d * %s' % (k_, nm)
+                        bad.append('the merged register stands for (self) + (rhs) + %s: the operand\'s residue enters with the wrong sign' % rest)
+                chk.ob('%s:merge:conserved%s' % (PID, sfx), 'E8 error-algebra', 'the merge conserves s %s c: the merged register stands for the sum of what the two operands stand for (the operand\'s residue enters with the sign of the conserved quantity)' % ('+' if sigma > 0 else '-'),
+                       not bad, '; '.join(sorted(set(bad))[:2]), where)
+                # (b) in a merge the addend is a partial sum: the rounding error of adding it must be recovered *exactly*,
+                #     else every merge loses up to u*|partial sum| and a chain of merges accumulates like naive summation.
+                #     The kernel's residual (t - p) - q is exact only for |p| >= |q| (Dekker): the path condition has to
+                #     establish that the base register's sum is the larger one.
+                probs = []
+                for q, hits in zip(rets, per_path):
+                    bname = hits[0][0]
+                    base_s, other_s = (S, BS) if bname == 'self' else (BS, S)
+                    first = K([sm.kahan_value(base_s, [C if bname == 'self' else BC])], other_s)
+                    f2s = [fast2sum_operands(*[fields(x)[0], fields(x)[1][0]]) for x in first]
+                    if any(o is None for o in f2s):
+                        probs.append('undecided: the kernel residual is not in Fast2Sum form (t - p) - q')
+                        continue
+                    ab, ao = T.op('abs', base_s), T.op('abs', other_s)
+                    ok_lits = {(T.op('lt', ao, ab), True), (T.op('le', ao, ab), True), (T.op('lt', ab, ao), False), (T.op('le', ab, ao), False)}
+                    if not any((a_, pol) in ok_lits for a_, pol in q.guard):
+                        probs.append('on the path where %s is the base, nothing establishes |%s.sum| >= |%s.sum|: the recovery (t - p) - q of the kernel is exact only for |p| >= |q|, so a merge into a smaller register loses its rounding error (u*|partial sum| per merge)' % (
+                            bname, bname, 'rhs' if bname == 'self' else 'self'))
+                und = [x for x in probs if x.startswith('undecided')]
+                chk.ob('%s:merge:recovery%s' % (PID, sfx), 'E8 error-algebra', 'the merge adds the smaller register into the larger one (precondition of the exact error recovery of the kernel)',
+                       None if und else not probs, '; '.join(sorted(set(probs))[:2]), where)
         except (Unsupported, NotReal) as e:
             chk.ob('%s:merge%s' % (PID, sfx), 'E3 composition', 'merge', None, 'undecided: %s' % e, where)
     addx = facts.trait_method('core::ops::Add', kp, 'add')
@@ -177,8 +247,11 @@ def run_cfg(chk, facts, cfg):
         # generic forwarding: sum = self; sum += rhs; sum  -- the only callee besides moves is AddAssign<X>
         ins = facts.root_instance(addx['id'])[0]
         callees = [c.get('trait', c['path']) + '::' + c.get('method', '') for bb, c in ins['calls']]
-        good = callees == ['std::ops::AddAssign::add_assign'] or callees == ['core::ops::AddAssign::add_assign']
-        chk.ob('%s:add-forwards%s' % (PID, sfx), 'E2 who-calls', 'register + x is "copy, += x, return" (no second summation path)', good, 'callees: %s' % callees, facts.loc(addx['id']))
+        # every step of `register + x` is one of the decided ones: `+=` (kernel or merge), possibly after converting the
+        # operand into a register through the register's own From / Into
+        norm = [c.replace('std::', 'core::') for c in callees]
+        good = norm.count('core::ops::AddAssign::add_assign') == 1 and all(c in ('core::ops::AddAssign::add_assign', 'core::convert::Into::into', 'core::convert::From::from') for c in norm)
+        chk.ob('%s:add-forwards%s' % (PID, sfx), 'E2 who-calls', 'register + x is one `+=` (on a copy, possibly after converting the operand into a register): no second summation path', good, 'callees: %s' % callees, facts.loc(addx['id']))
 
     # ---- D4 value()
     try:
@@ -231,7 +304,7 @@ def run_cfg(chk, facts, cfg):
         chk.floor('kernel-applications', cnt['kernel'], 3)
         chk.floor('accumulators-in-Arithmetic', cnt['acc'], 2)
     chk.rules.append('E8 first-order error algebra on the kernel; composition rule for the merge; who-may-construct for registers')
-    chk.notes.append('observations, not violations: value() adds the compensation the kernel subtracts (sigma = -1, k = +1) and the merge adds rhs.compensation; each deviation is one residual (<= 1/2 ulp of the partial sum) per call, so the total stays O(u*sum|x|) independent of the number of terms')
+    chk.notes.append('observation, not a violation: value() adds the compensation the kernel subtracts (sigma = -1, k = +1); the deviation is one residual (<= 1/2 ulp of the sum) per query and does not accumulate')
     chk.notes.append('NOT decided: the constant of the O(u*sum|x|) bound and long-stream f32/f64 behaviour (runtime quantities); the bound is the classical theorem about the recurrence that D2 identifies')
 
 
